@@ -70,9 +70,9 @@ CLAIMED = {
         ref="DESIGN.md section 4 C08",
         note="no schedule is enumerated; termination is not decided; 'none is started twice under every schedule' follows only from the once-per-call-site contracts (C01/C09/C13)."),
     'C12': dict(
-        text="_validate_schema_named_types reports at least one error exactly when some field of a type that has fields (objects AND interfaces) names an undefined type (nested loop invariants); _validate_field_type_is_same_as_interface_type equals the interface-conformance predicate (same type, non-null version of a compatible type, or possible type of a plain named interface; list / non-null interface types admit nothing else) by the recursive callee contract; reduce_type strips every wrapper; _validate (aggregator) runs every listed rule validator once and raises GraphQLSchemaError exactly when one of them reported an error; _validate_schema_root_types_exist, _validate_all_scalars_have_implementations, _validate_union_is_acceptable, _validate_non_empty_object, _validate_type_is_an_input_types, _validate_input_type_composed_of_input_type and _validate_directive_implementation (against the documented list of eleven hooks) report exactly when their rule is broken; the six parse_*_type_extension functions register ONE extension object per `extend` definition carrying its name, directives and every declared member list.",
+        text="_validate_schema_named_types reports at least one error exactly when some field of a type that has fields (objects AND interfaces) names an undefined type (nested loop invariants); _validate_field_type_is_same_as_interface_type equals the interface-conformance predicate (same type, non-null version of a compatible type, or possible type of a plain named interface; list / non-null interface types admit nothing else) by the recursive callee contract; reduce_type strips every wrapper; _validate (aggregator) runs every listed rule validator once and raises GraphQLSchemaError exactly when one of them reported an error; _validate_schema_root_types_exist, _validate_all_scalars_have_implementations, _validate_union_is_acceptable, _validate_non_empty_object, _validate_type_is_an_input_types, _validate_input_type_composed_of_input_type _validate_directive_implementation (against the documented list of eleven hooks), _validate_enum_values_are_unique (with _value_uniqueness: empty iff pairwise different) report exactly when their rule is broken; _validate_field_follow_interface adds an error exactly when the object lacks the interface field, mistypes it or its arguments do not follow; _validate_extensions aggregates like _validate; GraphQLSchema.bake completes only if both aggregators accepted (a GraphQLSchemaError of either propagates); the six parse_*_type_extension functions register ONE extension object per `extend` definition carrying its name, directives and every declared member list.",
         ref="DESIGN.md section 4 C12, Appendix B",
-        note="Ten rule functions, the aggregator and the extension registration are under contract; _validate_object_follow_interfaces (only its type-compatibility helper), enum-value uniqueness, _validate_arguments_have_valid_type, the redefinition guards, the extension validators and Engine.cook are not. lark raising on syntax errors is external."),
+        note="Thirteen rule functions, both aggregators, GraphQLSchema.bake and the extension registration are under contract; the outer loops of _validate_object_follow_interfaces, _validate_arguments_have_valid_type, the redefinition guards, the individual extension validators and Engine.cook are not. lark raising on syntax errors is external."),
     'C13': dict(
         text="wraps_with_directives returns exactly the reversed fold of the definition list (first declared directive implementing the hook outermost, each link bound to ITS callable, ITS arguments coercer and the chain of the later ones, resolver / default adapted once); directive_executor coerces the instance's arguments once with the request context and awaits the hook exactly once with them, the next stage and the untouched rest, never running the next stage itself; resolver_executor awaits the raw resolver once without context_coercer; compute_directive_nodes yields one entry per directive instance in declaration order bound to its own node and definition; bake() of scalar, enum, enum value, input field, input object, argument, field and interface types puts the stated chain into the stated coercer (variable and literal path share one on_post_input_coercion chain; the field's on_field_execution chain wraps raw / custom default / builtin default resolver inside resolve_field); argument_coercer runs the argument chain once on a valid value; resolve_field_value_or_error: the query-side on_field_execution directives of EVERY merged field node are computed (loop invariant) and wrapped around the baked resolver, which is called exactly once with the parent value, the coerced arguments of the first node (from the coerced variable map), the caller's context and info; input / literal / output directive wrappers call their hook chain exactly when due, with the coerced value, and use what it returns; top-level variables skip type-level hooks on the literal path (already applied at variable coercion) but input-field hooks still run.",
         ref="DESIGN.md section 4 C13",
